@@ -274,6 +274,25 @@ def elim_case_kaykobad_sum(rng) -> Dict[str, Any]:
     return {"terms": [term], "ctx": order, "elim": elim, "refine_hint": refine}
 
 
+def elim_case_cone(rng) -> Dict[str, Any]:
+    """A homogeneous context (constants 0, a cone): every LP optimum sits at the degenerate apex where all rows are
+    tight, so a tactic that picks among active rows has many to choose from; the term mentions only one of the two
+    variables to eliminate, so a proposal can come back half finished."""
+    p, q, r, u = (float(rng.choice([1, 1, 2, 3])) for _ in range(4))
+    sb, sc = rng.choice([1.0, -1.0]), rng.choice([1.0, -1.0])
+    rows = [T({"d": 1.0, "b": sb * p, "c": -sc * q}, 0.0), T({"d": 1.0, "b": -sb * r, "c": sc * u}, 0.0),
+            T({"d": -1.0}, 0.0)]
+    if rng.random() < 0.6:
+        rows.append(T({"b": -sb, "c": -sc}, 0.0))
+    if rng.random() < 0.3:
+        rows[rng.randrange(len(rows))]["k"] = float(rng.choice([1, 2]))
+    rng.shuffle(rows) if rng.random() < 0.6 else None
+    term = T({"a": float(rng.choice([1, 2])), "b": -sb * float(rng.choice([1, 1, 2]))}, float(rng.choice([0, 0, 1, 3])))
+    if rng.random() < 0.3:
+        term["c"]["c"] = sc * float(rng.choice([1, -1]))
+    return {"terms": [term], "ctx": rows, "elim": ["b", "c"], "refine_hint": True}
+
+
 def elim_case_coincide(rng) -> Dict[str, Any]:
     """A chain whose last link bounds the eliminated variable from the useless side, with the term that a
     wrong-direction substitution would produce already present in the context (as a bound on the kept variable)."""
@@ -309,6 +328,7 @@ ELIM_FAMILIES = [
     ("kaykobad", elim_case_kaykobad, 3),
     ("coincide", elim_case_coincide, 1),
     ("kaykobad_sum", elim_case_kaykobad_sum, 1),
+    ("cone", elim_case_cone, 1),
 ]
 
 
@@ -678,6 +698,66 @@ def compose_case(rng, kind: Optional[str] = None) -> Dict[str, Any]:
         c1, c2 = c2, c1  # the other call order takes the other assumption branch
     return {"wiring": kind, "style": style, "c1": c1, "c2": c2, "keep": keep, "simplify": rng.random() < 0.6,
             "order": rorder(rng)}
+
+
+def _elim_parts(e: Dict[str, Any]):
+    elim = list(e["elim"])
+    with_e = [t for t in e["ctx"] if set(t["c"]) & set(elim)]
+    without_e = [t for t in e["ctx"] if not (set(t["c"]) & set(elim))]
+    return elim, with_e, without_e
+
+
+def compose_from_elim(rng) -> Dict[str, Any]:
+    """An elimination case (C04 families) dressed as a composition: the producer's outputs are the variables to
+    eliminate and its contract is the context; the consumer assumes the terms.  Composing them must refine the
+    consumer's assumptions in that context - or refuse."""
+    e = elim_case(rng)
+    elim, with_e, without_e = _elim_parts(e)
+    in1 = sorted({v for t in e["ctx"] for v in t["c"] if v not in elim})
+    c1 = {"in": in1, "out": elim, "a": [dict(c=dict(t["c"]), k=t["k"]) for t in without_e],
+          "g": [dict(c=dict(t["c"]), k=t["k"]) for t in with_e]}
+    in2 = sorted({v for t in e["terms"] for v in t["c"]})
+    c2 = {"in": in2, "out": ["o9"], "a": [dict(c=dict(t["c"]), k=t["k"]) for t in e["terms"]],
+          "g": [T({"o9": 1.0, **({in2[0]: -1.0} if in2 and rng.random() < 0.5 else {})}, 1.0)]}
+    if rng.random() < 0.5:
+        c1, c2 = c2, c1
+    return {"wiring": "from_elim", "style": "elim:" + e["family"], "c1": c1, "c2": c2, "keep": [],
+            "simplify": e["simplify"], "order": e["order"]}
+
+
+def quotient_from_elim(rng) -> Dict[str, Any]:
+    """An elimination case dressed as a quotient: the variables to eliminate are inputs shared by dividend and
+    divisor (internal to the quotient), the dividend guarantees the terms, the divisor's contract is the context."""
+    e = elim_case(rng)
+    elim, with_e, without_e = _elim_parts(e)
+    t_out = sorted({v for t in e["terms"] for v in t["c"] if v not in elim}) or ["o9"]
+    d_out = sorted({v for t in e["ctx"] for v in t["c"] if v not in elim})
+    ren = {v: (v + "_d") for v in d_out if v in t_out}  # keep the two output sets apart
+    d_out = [ren.get(v, v) for v in d_out] or ["m9"]
+
+    def rn(t):
+        return {"c": {ren.get(v, v): c for v, c in t["c"].items()}, "k": t["k"]}
+
+    a_terms = [rn(t) for t in e["ctx"] if set(t["c"]) <= set(elim)]
+    g_terms = [rn(t) for t in e["ctx"] if not set(t["c"]) <= set(elim)]
+    top_a = []
+    if a_terms and rng.random() < 0.5:
+        # the dividend states (some of) the divisor's assumptions itself: they serve the second refinement pass
+        top_a = [dict(c=dict(t["c"]), k=t["k"]) for t in a_terms if rng.random() < 0.7]
+        if rng.random() < 0.5:
+            a_terms = [t for t in a_terms if rng.random() < 0.5]
+    if rng.random() < 0.6:
+        # the dividend's own bounds on the shared inputs: the context of the second refinement pass
+        for v in elim:
+            if rng.random() < 0.7:
+                top_a.append(T({v: rng.choice([1.0, -1.0])}, float(rng.randint(-3, 6))))
+    top = {"in": list(elim), "out": t_out, "a": top_a, "g": [dict(c=dict(t["c"]), k=t["k"]) for t in e["terms"]]}
+    if not any(v in t["c"] for t in top["g"] for v in t_out):
+        top["g"].append(T({t_out[0]: 1.0}, 5.0))
+    divisor = {"in": list(elim), "out": d_out, "a": a_terms, "g": g_terms}
+    return {"family": "from_elim:" + e["family"], "shape": "shared_inputs", "style": "elim", "top": top,
+            "divisor": divisor, "partner": None, "additional_inputs": [], "simplify": e["simplify"],
+            "order": e["order"]}
 
 
 def quotient_case(rng) -> Dict[str, Any]:
